@@ -153,7 +153,7 @@ func newPackage(program *loader.Program, pkgInfo *loader.PackageInfo, plugins []
 	}
 	generators := make(map[string]Generator, len(plugins))
 	for _, plugin := range plugins {
-		generators[plugin.Name()] = plugin.New(typesmaps[plugin.Name()], printer, deps)
+		generators[plugin.Name()] = plugin.New(typesmaps[plugin.Name()], &importReserver{printer, reserved}, deps)
 	}
 	pkg := &pkg{pkgInfo, plugins, generators, printer, nil, fullpath}
 	for _, fileInfo := range fileInfos {
@@ -225,6 +225,19 @@ func newPackage(program *loader.Program, pkgInfo *loader.PackageInfo, plugins []
 
 	}
 	return pkg, nil
+}
+
+// importReserver is the printer that the plugins are given.
+// The name under which a plugin is going to import a package is kept from the functions that are made up:
+// the generated file cannot declare a function of that name next to the import.
+type importReserver struct {
+	Printer
+	reserved map[string]struct{}
+}
+
+func (p *importReserver) NewImport(name, path string) Import {
+	p.reserved[name] = struct{}{}
+	return p.Printer.NewImport(name, path)
 }
 
 // firstSyntaxError returns the first error that the scanner or the parser reports for the file, or nil.
